@@ -7,6 +7,7 @@ import (
 	"go/token"
 	"go/types"
 	"sort"
+	"strings"
 
 	"golang.org/x/tools/go/ssa"
 )
@@ -40,6 +41,7 @@ func (g *Gen) instr(in ssa.Instruction, h *Heap, guard string) *Heap {
 		pt := x.Type().Underlying().(*types.Pointer).Elem()
 		r, h2 := m.alloc(h, guard, typeName(pt))
 		g.setVal(x, r)
+		g.unreachableFresh(h, pt, r, guard)
 		return g.zeroInit(h2, pt, r)
 	case *ssa.FieldAddr, *ssa.IndexAddr:
 		// addresses are resolved at their use (load/store/escape)
@@ -768,4 +770,56 @@ func blockReaches(a, b *ssa.BasicBlock) bool {
 		stack = append(stack, x.Succs...)
 	}
 	return false
+}
+
+// unreachableFresh: a freshly allocated object of type T is not yet referenced from anywhere: no pointer field of
+// type *T in the repository's structs holds its address (stated for the field variables this VC uses).
+func (g *Gen) unreachableFresh(h *Heap, pt types.Type, r string, guard string) {
+	if !isStruct(pt) {
+		return
+	}
+	for _, fv := range g.w.pointerFieldsTo(pt) {
+		srt, used := g.vc.heapVarSorts[fv]
+		if !used {
+			continue
+		}
+		arr := h.Get(fv, srt)
+		g.vc.AssumeAt(guard, fmt.Sprintf("(forall ((fx Int)) (! (not (= (select %s fx) %s)) :pattern ((select %s fx))))", arr, r, arr), "a fresh object is not referenced by any "+fv)
+	}
+}
+
+// pointerFieldsTo lists the heap variables of struct fields (in the repository's packages) of type *T.
+func (w *World) pointerFieldsTo(t types.Type) []string {
+	key := typeName(t)
+	if w.ptrFields == nil {
+		w.ptrFields = map[string][]string{}
+		var paths []string
+		for path := range w.allPkgs {
+			if strings.HasPrefix(path, "github.com/f1bonacc1/process-compose") {
+				paths = append(paths, path)
+			}
+		}
+		sort.Strings(paths)
+		for _, path := range paths {
+			sc := w.allPkgs[path].Scope()
+			for _, name := range sc.Names() {
+				tn, ok := sc.Lookup(name).(*types.TypeName)
+				if !ok {
+					continue
+				}
+				st, stn, ok := structOf(tn.Type())
+				if !ok || !isStruct(tn.Type()) {
+					continue
+				}
+				for i := 0; i < st.NumFields(); i++ {
+					f := st.Field(i)
+					if p, ok := f.Type().Underlying().(*types.Pointer); ok && isStruct(p.Elem()) {
+						k := typeName(p.Elem())
+						w.ptrFields[k] = append(w.ptrFields[k], fieldVar(stn, f.Name()))
+					}
+				}
+			}
+		}
+	}
+	return w.ptrFields[key]
 }
